@@ -31,23 +31,37 @@ THEOREMS = [
     'C17.matchPQ_pairing_partial', 'C17.solveG_homogeneous', 'C17.strainG_homogeneous', 'C17.measures_homogeneous',
     'C17.strain_symm', 'C17.rotation_antisymm', 'C17.strain_add_rotation', 'C17.strain_one', 'C17.invariants_charpoly',
     'C17.nye_zero',
+    # the undeformed crystal (pairing hypothesis proved), the whole ddvectors array, numpy.unique / numpy.interp models
+    'C17.solveG_undeformed', 'C17.strainG_undeformed', 'C17.ddvectors_are_differences', 'C17.unique_spec',
+    'C17.interp_at_knot',
     # joint translation, consistent renumbering
     'C17.translation_invariant', 'C17.permutation_equivariant',
 ]
 PARTIAL = {
-    'matchPQ_pairing': 'pairing correctness of match_pq is proved only under the hypothesis that every current '
-                       'neighbour vector q is within theta_max of exactly one reference vector p (and distinct q pick '
-                       'distinct p); that small deformations of a perfect crystal satisfy it is geometric and checked on '
-                       'the implementation, not proved',
+    'matchPQ_pairing': 'pairing correctness of match_pq (matchPQ_pairing_partial, hence solveG/strainG_homogeneous) is proved '
+                       'under the hypothesis that every current neighbour vector q has a best reference vector p inside '
+                       'theta_max and distinct q pick distinct p. The hypothesis is derived from geometry only for the '
+                       'undeformed crystal (solveG_undeformed); that a small deformation of a perfect crystal satisfies it '
+                       'depends on the angular separation of the shell and is checked on the implementation '
+                       '(oracle: G = F^-T at every atom), not proved',
     'lstsq': 'numpy.linalg.lstsq is a parameter: G is characterised by the normal equations QtQ G = QtP with QtQ '
              'invertible; the residual of the real lstsq result is checked on every correspondence case',
+    'disregistry_translation': 'translation/renumbering invariance is proved for displacement, slip vector, differential '
+                               'displacement, p/q vectors, G and the Nye tensor; for disregistry only through '
+                               'disregistry_rigid_full (the profile is the slip whatever the origin): numpy.isclose has a '
+                               'relative tolerance, so plane/column grouping is not translation invariant in general; '
+                               'the invariance of the real function is searched with the oracle',
+    'sqrt': 'the square root in match_pq is a parameter `mag`; solveG_undeformed assumes mag p > 0 and mag p ^ 2 = |p|^2',
 }
 RULE = ('reference crystals fcc/bcc/hcp/L1_2/B2/two-type hcp/bct-described fcc/[11-2][111][-110]-oriented fcc built '
-        'from literal fractional coordinates and supersized (32-200 atoms); homogeneous F = R(I+eps) with |eps|<=0.03 '
-        'incl. pure rotations; smooth periodic displacement fields for non-zero Nye; rigid slips of a half crystal on '
-        'planes between atomic layers (pbc on and off along the normal, wrapped and unwrapped); neighbour cutoffs '
-        'selecting complete shells; distinct = distinct (crystal, size, deformation, cutoff, op); non-trivial = '
-        'deformation non-zero')
+        'from literal fractional coordinates; one neighbour shell (1st, or 1st+2nd for fcc/bcc/B2) and the smallest '
+        'supercell whose periodic widths exceed twice the shell radius, grown by 0-2 cells (16-200 atoms); per crystal '
+        'several deformations: homogeneous F = R(I+eps) with |eps|<=0.03 incl. pure rotations and pure strains (box '
+        'deformed too, atoms optionally moved by box vectors), smooth periodic displacement fields for non-zero Nye, '
+        'rigid slips of a half crystal on planes between atomic layers (pbc on and off along the normal, wrapped and '
+        'unwrapped, dyadic = exact regime and decimal), plane-dependent fields on top for disregistry; clusters with '
+        'competing / unmatched q vectors for the pairing loop; distinct = distinct (crystal, size, deformation, cutoff, '
+        'op); non-trivial = deformation non-zero (match: the loop discards or leaves out something)')
 ASSUMPTIONS = [
     'numpy.linalg.lstsq returns the solution of the normal equations for full-column-rank Q (residual of the real '
     'result checked in every correspondence case)',
@@ -459,9 +473,12 @@ def _corr_slip_one(ctx, rng, ref, caseseed, it0, it, dyadic):
     _corr_disreg(ctx, s0, s1, m, nn, planepos, exact, dict(info, m=m, n=nn, planepos=planepos), canon)
     if it % 2 == 1:
         # a smooth non-rigid field on top: means over columns and interpolation do real work
+        # (it differs from plane to plane and between the halves: the choice of the two adjoining planes matters)
         sfrac = s0.box.position_cartesian_to_relative(s0.atoms.pos)
-        u = np.sin(2 * np.pi * sfrac[:, mdir])[:, None] * np.array([0.05, 0.02, -0.03]) * a
-        s2 = _system(s0, s1.atoms.pos + u * sc['side'][:, None], pbc=sc['pbc'])
+        lev = (s0.atoms.pos[:, ax] - s0.atoms.pos[:, ax].min()) / max(1e-9, float(np.ptp(s0.atoms.pos[:, ax])))
+        u = (np.sin(2 * np.pi * sfrac[:, mdir]) * (0.4 + lev) * np.where(sc['side'], 1.0, -0.6))[:, None] \
+            * np.array([0.03, 0.012, -0.02]) * a
+        s2 = _system(s0, s1.atoms.pos + u, pbc=sc['pbc'])
         _corr_disreg(ctx, s0, s2, m, nn, planepos, False, dict(info, m=m, n=nn, planepos=planepos, field=True),
                      canon + ('field',))
         # plane position outside the crystal -> ValueError on both sides
@@ -561,6 +578,22 @@ def _corr_strain_one(ctx, rng, ref, nl0, caseseed, it0, it):
     ctx.extra['lstsq_residual_max'] = max(ctx.extra.get('lstsq_residual_max', 0.0), res)
     if res > 1e-10:
         ctx.disagree('lstsq:residual', f'numpy lstsq result violates the normal equations (relative residual {res:.2e})', info)
+    if F is not None and it % 4 == 0:
+        # differential displacement with two different cells (system_1 carries the deformed box)
+        offs = np.concatenate([[0], np.cumsum([len(nl0[i]) for i in range(n)])])
+        rows = np.concatenate([np.arange(offs[i], offs[i + 1]) for i in sel]).astype(int)
+        o = ctx.driver.ask(f'dd {_cell(s0)} {_cell(s1)} {n} {cm.frs(s0.atoms.pos)} {cm.frs(s1.atoms.pos)} '
+                           f'{_nlist_tokens(nl0, n)} {_sel_tokens(sel)}')
+        ctx.stats.case('dd:deformed-cell', canon, sample=info)
+        dd = am.defect.DifferentialDisplacement(s0, s1, neighbors=nl0, reference=0)
+        _cmp(ctx, 'ddvectors:cells', 'DifferentialDisplacement (deformed cell).ddvectors', dd.ddvectors[rows], o, False, info,
+             atol=2e-9)
+        o = ctx.driver.ask(f'disp {_cell(s1)} {n} {cm.frs(s0.atoms.pos)} {cm.frs(s1.atoms.pos)}')
+        _cmp(ctx, 'displacement:cells', 'displacement (deformed cell, final box)', am.displacement(s0, s1), o, False, info,
+             atol=2e-9)
+        o = ctx.driver.ask(f'disp {_cell(s0)} {n} {cm.frs(s0.atoms.pos)} {cm.frs(s1.atoms.pos)}')
+        _cmp(ctx, 'displacement:cells', "displacement (deformed cell, box_reference='initial')",
+             am.displacement(s0, s1, box_reference='initial'), o, False, info, atol=2e-9)
     # strain measures from G --------------------------------------------------------------
     atoms = sel[:3]
     outs = ctx.driver.ask_many(['derive ' + cm.frs(G[i]) for i in atoms])
@@ -677,9 +710,9 @@ def _corr_match(ctx, caseseed, N):
 
 def correspond(ctx):
     rng = ctx.rng
-    for it in range(ctx.n(10, 60)):
+    for it in range(ctx.n(10, 45)):
         _corr_slip(ctx, rng.getrandbits(48), it)
-    for it in range(ctx.n(10, 50)):
+    for it in range(ctx.n(10, 40)):
         _corr_strain(ctx, rng.getrandbits(48), it)
     _corr_match(ctx, rng.getrandbits(48), ctx.n(250, 2500))
 
@@ -962,6 +995,20 @@ def _search_homog_one(ctx, rng, ref, nl0, caseseed, it0, it):
     k = _bad(d, exp_disp, 1e-9 * float(np.abs(s0.box.vects).max()))
     if k is not None:
         fail('displacement', f'displacement of atom {k} is {d[k].tolist()}, imposed (F-I)x = {exp_disp[k].tolist()}', k)
+    # differential displacement: u_j - u_i = (F - I) d0_ij for every reference neighbour pair --------------
+    FmI = np.array(F) - np.identity(3)
+    exp_dd = np.concatenate([np.atleast_2d(s0.dvect(i, nl0[i])) @ FmI.T for i in range(n) if len(nl0[i])])
+    try:
+        dd = am.defect.DifferentialDisplacement(s0, s1, neighbors=nl0, reference=0).ddvectors
+        if dd.shape != exp_dd.shape:
+            fail('ddvectors', f'DifferentialDisplacement: {len(dd)} pair vectors for {len(exp_dd)} reference pairs')
+        else:
+            k = _bad(dd, exp_dd, 1e-9 * float(np.abs(s0.box.vects).max()))
+            if k is not None:
+                fail('ddvectors', f'ddvectors[{k}] = {dd[k].tolist()} under a homogeneous deformation, difference of the '
+                     f'imposed displacements (F-I) d_ij = {exp_dd[k].tolist()}', pair=k)
+    except Exception as e:   # noqa
+        fail('ddvectors:raises', f'DifferentialDisplacement raised {type(e).__name__}: {e}')
     variants = [('neighbors=', lambda: am.defect.Strain(s1, neighbors=nl1, basesystem=s0, baseneighbors=nl0))]
     if it % 2 == 0:
         variants.append(('cutoff=', lambda: am.defect.Strain(s1, cutoff=cut, basesystem=s0)))
@@ -1041,9 +1088,9 @@ def _search_homog_one(ctx, rng, ref, nl0, caseseed, it0, it):
 def search(ctx, broken):
     rng = random.Random(ctx.seed * 7919 + 17)
     mult = 2 if broken else 1
-    for it in range(ctx.n(8, 60) * mult):
+    for it in range(ctx.n(8, 45) * mult):
         _search_slip(ctx, rng.getrandbits(48), it)
-    for it in range(ctx.n(8, 50) * mult):
+    for it in range(ctx.n(8, 40) * mult):
         _search_homog(ctx, rng.getrandbits(48), it)
 
 
